@@ -6,13 +6,17 @@
 (* SEND_FLOW_REM flag, a cookie, two clocks (age since installation, age    *)
 (* since the last matching frame) and two counters.                         *)
 (*                                                                          *)
-(* One action per thing that can happen to the table:                       *)
-(*   FLOW_MOD  ADD / MODIFY / MODIFY_STRICT / DELETE / DELETE_STRICT        *)
-(*             (split by outcome: Insert, Replace, RefuseOverlap,           *)
-(*             RefuseFull, RejectEmerg, ModifyHit, Delete)                  *)
-(*   Packet    a frame arrives on a port (lookup winner is touched)         *)
+(* One action per thing that can happen to the table, split by outcome so   *)
+(* that TLC's per-action coverage shows which outcomes a model exercised:   *)
+(*   FLOW_MOD  ADD, and MODIFY[_STRICT] that addresses nothing:             *)
+(*               Insert, Replace, RefuseOverlap, RefuseFull, RejectEmerg    *)
+(*             MODIFY[_STRICT] that addresses entries:  ModifyHit           *)
+(*             DELETE[_STRICT]:  DeleteSome, DeleteNone                     *)
+(*   Packet    a frame arrives on a port:  Hit (lookup winner is touched),  *)
+(*             Miss (packet-in)                                             *)
 (*   Tick      time passes                                                  *)
-(*   Sweep     the periodic expiry pass (FlowTable.remove_expired_entries)  *)
+(*   Sweep     the periodic expiry pass (FlowTable.remove_expired_entries): *)
+(*             SweepSome, SweepNone                                         *)
 (*   Stats     flow / aggregate statistics request (reads only)             *)
 (* Every action logs what an observer of the table and of the OpenFlow      *)
 (* channel must see (`last`, appended to `hist` for export to the harness). *)
